@@ -902,6 +902,7 @@ func init() {
 			c.SessionLifecycle("C13")
 			c.ConstIndexGuarded("C13") // no contribution makes an instance crash
 			c.ParticipantsAsSent("C13")
+			c.AlignedLists("C13")
 		},
 		Explanation: "A received share or verification vector enters the session only below the contribution check applied to that very share and vector, this instance's id and the session threshold; the check accepts only vectors of exactly threshold entries (so the aggregate, sized by the threshold, is never indexed out of range); the account is written only by commit, below one share and one vector per listed participant; the initiator starts commit messages only past the nil-error edge of every prepare and execute; undecodable contributions return before the process service. See DESIGN.md §5 C13.",
 		Trusted:     append([]string{"herumi BLS share/vector consistency check", "partial failure during the commit phase is outside the statement"}, commonTrusted...),
